@@ -91,7 +91,9 @@ def _build(ctx, xs, order, nan_at=None):
         else:
             pos = _vec(ctx, xs[i])
         attrs = dict(atomname=name, resname='ALA', resid=res + 1, chain=chain, position=pos, sel=(i in PART['selected']))
-        if PART.get('old_resid'):
+        if PART.get('old_resid') == 'zero':
+            attrs['_old_resid'] = res            # input numbered from 0, renumbered from 1
+        elif PART.get('old_resid'):
             attrs['_old_resid'] = res + 11
         mol.add_node(i, **attrs)
     first = {}
@@ -144,8 +146,9 @@ def _same_domain(ctx, i, j, regions):
         return True
     if domain == 'chain':
         return beads[i][1] == beads[j][1]
-    ri = beads[i][0] + (11 if PART.get('old_resid') else 1)
-    rj = beads[j][0] + (11 if PART.get('old_resid') else 1)
+    offset = 0 if PART.get('old_resid') == 'zero' else (11 if PART.get('old_resid') else 1)
+    ri = beads[i][0] + offset
+    rj = beads[j][0] + offset
     conds = []
     for a, b in regions:
         lower = ctx.ite(a <= b, a, b)
@@ -182,7 +185,7 @@ def run_network(ctx):
     regions = None
     if PART['domain'] == 'regions':
         r1a, r1b = ctx.real('reg_a'), ctx.real('reg_b')
-        regions = [(r1a, r1b), (ctx.const(3 if not PART.get('old_resid') else 13), ctx.const(40))]
+        regions = [(r1a, r1b), (ctx.const(13 if PART.get('old_resid') is True else 3), ctx.const(40))]
         PART['_regions'] = regions
     recorder = RecLogger()
     mol = _build(ctx, xs, ORDERS[PART['order']])
@@ -392,7 +395,8 @@ def cases(tier):
                             if tier == 'thorough' and (k + sep) % 2 != 0 and layout != 'lin4':
                                 continue
                             part = dict(layout=layout, selected=selected, sep=sep, power=power, domain=domain, order=order,
-                                        sep_from_ff=(k % 5 == 0), old_resid=(domain == 'regions' and k % 2 == 0))
+                                        sep_from_ff=(k % 5 == 0),
+                                        old_resid=(domain == 'regions' and [False, True, 'zero'][k % 3]))
                             out.append({'fn': 'run_network', 'engine': 'sn', 'part': part, 'timeout': 600,
                                         'label': 'network[%s sel%s sep%d p%d %s %s]' % (layout, ''.join(map(str, selected)), sep, power, domain, order),
                                         'twin': k % 40 == 0})
